@@ -1,6 +1,7 @@
 """Emitter for C20: use_definitions / product / aggregate programs."""
 import sys
-sys.path.insert(0, "/verif/lib")
+import os
+sys.path.insert(0, os.path.join(os.path.dirname(os.path.dirname(os.path.abspath(__file__))), "lib"))
 import gen
 
 
